@@ -59,6 +59,13 @@ class Ledger(object):
         self.extra = {}
         self.errors = []
         self.canaries = []
+        # stale replay files of earlier runs of this property are removed
+        try:
+            for fn in os.listdir(REPLAYS):
+                if fn.startswith(pid + '-') and fn.endswith('.json'):
+                    os.remove(os.path.join(REPLAYS, fn))
+        except OSError:
+            pass
         with open(KNOWN) as f:
             kf = json.load(f)
         self.known = [k for k in kf.get('findings', []) if k['property'] == pid]
